@@ -107,7 +107,9 @@ def campaign(tag, spec, sh, judge, classes, pool_first=0, long_share=0.15, **gen
     from vf.core import rng_for
     for i in range(spec['cases']):
         rng = rng_for(tag, spec['seed'], spec['shard'], i)
-        if rng.random() < long_share:
+        if rng.random() < 0.12:
+            case = gen.translocation_case(rng)
+        elif rng.random() < long_share:
             case = gen.long_molecule_case(rng, nq=rng.randint(6, 12))
             if rng.random() < 0.4:
                 case['params'].update(d=rng.choice([800, 3000]), ms=rng.choice([500, 1000, 2000]))
